@@ -611,9 +611,10 @@ def p_dict(I, n, pos, kw):
     if not pos:
         return DictV({k: v for k, v in kw.items()})
     v = pos[0]
-    if isinstance(v, DictV) and not kw:
-        d2 = DictV(dict(v.d), v.generic)
+    if isinstance(v, DictV):
+        d2 = DictV(dict(v.d), v.generic)   # dict(d) / dict(d, key=value): a new dictionary
         d2.keymap = getattr(v, "keymap", None)
+        d2.d.update(kw)
         return d2
     if isinstance(v, ObjV) and v.tag == "zip" and len(v.attrs["items"]) == 2 and not kw:
         ks, vs = [x if isinstance(x, Arr) else arrays.to_arr(x) for x in v.attrs["items"]]
@@ -726,7 +727,7 @@ def p_isinstance(I, n, pos, kw):
             names.append(x.target)
     def is_(name):
         if name == "builtins.list":
-            return isinstance(v, (Seq, Concat)) or (isinstance(v, Arr) and v.kind == "list")
+            return (isinstance(v, Seq) and v.kind != "tuple") or isinstance(v, Concat) or (isinstance(v, Arr) and v.kind == "list")
         if name == "builtins.tuple":
             return isinstance(v, Seq) and v.kind == "tuple"
         if name == "numpy.ndarray":
@@ -909,6 +910,12 @@ TABLE["numpy.isfinite"] = lambda I, n, pos, kw: arrays.unop(
     lambda e: sym.TRUE if I._finite(e) else sym.fn("isfinite", e), pos[0])
 TABLE["numpy.isinf"] = lambda I, n, pos, kw: arrays.unop(
     lambda e: sym.FALSE if I._finite(e) else sym.fn("isinf", e), pos[0])
+# a finite number is not NaN; for anything else whether it is NaN is an opaque fact about the input
+TABLE["numpy.isnan"] = lambda I, n, pos, kw: arrays.unop(
+    lambda e: sym.FALSE if I._finite(e) else sym.Opq("isnan", (e,), None), pos[0])
+TABLE["math.isnan"] = TABLE["numpy.isnan"]
+TABLE["math.isinf"] = TABLE["numpy.isinf"]
+TABLE["math.isfinite"] = TABLE["numpy.isfinite"]
 
 
 @prim("numpy.sqrt", "math.sqrt")
